@@ -882,7 +882,8 @@ pub trait StoreFor<T: Storable>: Configurable + private::StoreCallbacks<T> {
     /// This is a low-level API method. You usually don't want to call this directly.
     fn resolve_id(&self, id: &str) -> Result<T::HandleType, StamError> {
         if let Some(idmap) = self.idmap() {
-            if idmap.resolve_temp_ids {
+            if idmap.resolve_temp_ids && id.starts_with(T::temp_id_prefix()) {
+                //only temporary ids of this item type resolve here
                 if let Some(handle) = resolve_temp_id(id) {
                     return Ok(T::HandleType::new(handle));
                 }
